@@ -1,11 +1,172 @@
-//! stub
-use crate::checks::{RunRecord, Tier};
+//! C03: generated rule lists over step histories with in-transit artifact faults, judged both ways
+//! against the reference model of the specification's rule algorithm (refmodel.rs). The world is a
+//! supply-chain trace whose every other stage passes by construction (one valid authorized link per
+//! step), so the verifier's verdict is the rule engine's verdict.
+
+use crate::checks::{exec_supply, RunRecord, Tier};
 use crate::exec::Scratch;
+use crate::gen;
+use crate::keys::{KeyKind, KeySpec};
 use crate::oracle::Finding;
+use crate::prng::Rng;
+use crate::refmodel;
+use crate::supply::SupplyTrace;
+use crate::world::*;
 use serde::{Deserialize, Serialize};
+use std::collections::BTreeMap;
 
 #[derive(Clone, Debug, Serialize, Deserialize, PartialEq)]
 pub struct RulesTrace {}
-pub fn run_c03(_t: Tier, _s: u64, _i: u64, _sc: &Scratch, _r: &mut RunRecord) {}
-pub fn replay(_p: &str, _t: &RulesTrace, _sc: &Scratch, _r: &mut RunRecord) -> Vec<Finding> { vec![] }
-pub fn minimise(_p: &str, _c: &str, t: &RulesTrace, _sc: &Scratch) -> (RulesTrace, bool) { (t.clone(), false) }
+
+const UNIVERSE: &[&str] = &["foo", "bar", "baz", "src/a", "src/b", "src/x/c", "src/foo", "out/a", "out/b", "out/foo", "dst/a", "dst/foo", "a.c", "b.h", "x/y/z"];
+const PATTERNS: &[&str] = &["*", "foo", "bar", "src/*", "*.c", "src/a", "?ar", "[fb]oo", "[!f]oo", "out/*", "nothing", "a.c", "src/x/*", "dst/*", "a", "b", "*/a", "ba?", "x/y/z", "[a-c].[ch]"];
+const PREFIXES: &[&str] = &["src", "out", "dst", "src/x", "x/y", "nowhere"];
+
+fn arts(r: &mut Rng, n: usize, ctr: &mut u64) -> Artifacts {
+    let mut a = Artifacts::new();
+    for _ in 0..n {
+        *ctr += 1;
+        a.insert(r.pick(UNIVERSE).to_string(), gen::digest_of(*ctr % 7, false));
+    }
+    a
+}
+
+fn rule(r: &mut Rng, names: &[String]) -> Rule {
+    let pat = r.pick(PATTERNS).to_string();
+    match r.weighted(&[10, 8, 10, 14, 8, 10, 40]) {
+        0 => vec!["CREATE".into(), pat],
+        1 => vec!["DELETE".into(), pat],
+        2 => vec!["MODIFY".into(), pat],
+        3 => vec!["ALLOW".into(), pat],
+        4 => vec!["REQUIRE".into(), r.pick(UNIVERSE).to_string()],
+        5 => vec!["DISALLOW".into(), if r.chance(1, 12) { r.pick(&["[", "a**b", "**a", "[!"]).to_string() } else { pat }],
+        _ => {
+            let mut v: Rule = vec!["MATCH".into(), r.pick(&["*", "a", "foo", "b", "?", "*.c", "x/c", "c", "z"]).to_string()];
+            if r.chance(1, 2) {
+                v.push("IN".into());
+                v.push(r.pick(PREFIXES).to_string());
+            }
+            v.push("WITH".into());
+            v.push(if r.chance(1, 2) { "PRODUCTS".into() } else { "MATERIALS".into() });
+            if r.chance(1, 2) {
+                v.push("IN".into());
+                v.push(r.pick(PREFIXES).to_string());
+            }
+            v.push("FROM".into());
+            v.push(if r.chance(1, 10) { "ghost-step".to_string() } else { r.pick(names).clone() });
+            v
+        }
+    }
+}
+
+fn rule_list(r: &mut Rng, names: &[String]) -> Vec<Rule> {
+    let n = r.weighted(&[10, 15, 20, 20, 15, 10, 10]);
+    let mut v: Vec<Rule> = (0..n).map(|_| rule(r, names)).collect();
+    match r.weighted(&[45, 25, 30]) {
+        0 => {}
+        1 => v.push(vec!["DISALLOW".into(), "*".into()]),
+        _ => v.push(vec!["ALLOW".into(), "*".into()]),
+    }
+    v
+}
+
+pub fn gen_rules_world(seed: u64) -> SupplyTrace {
+    let mut r = Rng::stream(seed, "rules");
+    let n = 1 + r.weighted(&[30, 45, 25]);
+    let keys: Vec<KeySpec> = (0..n + 1).map(|i| KeySpec { kind: KeyKind::Ed, seed: (seed % 97) * 10 + i as u64 }).collect();
+    let names: Vec<String> = (0..n).map(|i| format!("s{i}")).collect();
+    let mut ctr = r.below(5);
+    let mut steps = vec![];
+    let mut files = vec![];
+    let mut labels = vec![];
+    let mut prev_products: Option<Artifacts> = None;
+    for i in 0..n {
+        // materials: what the previous step produced (shifted under a prefix now and then), with in-transit faults
+        let mut mats = match &prev_products {
+            Some(p) if r.chance(3, 4) => {
+                let mut m = Artifacts::new();
+                let shift = if r.chance(1, 3) { Some(*r.pick(PREFIXES)) } else { None };
+                for (k, v) in p {
+                    let nk = match shift {
+                        Some(s) => format!("{}/{}", s, k.rsplit('/').next().unwrap_or(k)),
+                        None => k.clone(),
+                    };
+                    m.insert(nk, v.clone());
+                }
+                m
+            }
+            _ => {
+                let n = r.below(4) as usize;
+                arts(&mut r, n, &mut ctr)
+            }
+        };
+        if prev_products.is_some() {
+            match r.below(8) {
+                0 if !mats.is_empty() => {
+                    let k = mats.keys().nth(r.idx(mats.len())).unwrap().clone();
+                    mats.insert(k, gen::digest_of(900 + ctr, false));
+                    labels.push("A-TAMPER".to_string());
+                }
+                1 => {
+                    mats.insert(r.pick(UNIVERSE).to_string(), gen::digest_of(800 + ctr, false));
+                    labels.push("A-INJECT".to_string());
+                }
+                2 if !mats.is_empty() => {
+                    let k = mats.keys().nth(r.idx(mats.len())).unwrap().clone();
+                    mats.remove(&k);
+                    labels.push("A-REMOVE".to_string());
+                }
+                3 if !mats.is_empty() => {
+                    let k = mats.keys().nth(r.idx(mats.len())).unwrap().clone();
+                    let v = mats.remove(&k).unwrap();
+                    mats.insert(r.pick(UNIVERSE).to_string(), v);
+                    labels.push("A-RENAME".to_string());
+                }
+                _ => {}
+            }
+        }
+        // products: unchanged / modified / deleted / created
+        let mut prods = Artifacts::new();
+        for (k, v) in &mats {
+            match r.below(4) {
+                0 => {}
+                1 => {
+                    ctr += 1;
+                    prods.insert(k.clone(), gen::digest_of(100 + ctr % 5, false));
+                }
+                _ => {
+                    prods.insert(k.clone(), v.clone());
+                }
+            }
+        }
+        for _ in 0..r.below(3) {
+            ctr += 1;
+            prods.insert(r.pick(UNIVERSE).to_string(), gen::digest_of(ctr % 7, false));
+        }
+        steps.push(StepSpec { name: names[i].clone(), threshold: 1, pubkeys: vec![i + 1], exp_mat: rule_list(&mut r, &names), exp_prod: rule_list(&mut r, &names), cmd: vec![] });
+        let link = LinkSpec { name: names[i].clone(), materials: mats, products: prods.clone(), stdout: Some(String::new()), stderr: Some(String::new()), retval: Some(0), other: BTreeMap::new(), command: vec![], env: None };
+        files.push(FileSpec { name: gen::link_name(&names[i], &keys, i + 1), body: Body::Link(link), doc: DocSpec { signers: vec![i + 1], ops: vec![], pretty: false } });
+        prev_products = Some(prods);
+    }
+    let now = gen::NOW_DEFAULT;
+    let root = LevelSpec {
+        layout: LayoutSpec { expires: refmodel::render_rfc3339(now + 86_400, None, ""), readme: String::new(), key_table: (1..=n).collect(), steps, inspect: vec![] },
+        doc: DocSpec { signers: vec![0], ops: vec![], pretty: false },
+        files,
+        subdir: String::new(),
+    };
+    labels.push("RULES".into());
+    SupplyTrace { keys, root, caller: vec![(0, 0)], clock: vec![(now, 0)], hash_seeds: vec![r.next()], arrivals: vec![r.next()], file_faults: vec![], labels, work_files: vec![] }
+}
+
+pub fn run_c03(_tier: Tier, seed: u64, index: u64, scratch: &Scratch, rec: &mut RunRecord) {
+    let t = gen_rules_world(seed);
+    exec_supply("C03", &t, scratch, rec, seed, index);
+}
+
+pub fn replay(_p: &str, _t: &RulesTrace, _sc: &Scratch, _r: &mut RunRecord) -> Vec<Finding> {
+    vec![]
+}
+pub fn minimise(_p: &str, _c: &str, t: &RulesTrace, _sc: &Scratch) -> (RulesTrace, bool) {
+    (t.clone(), false)
+}
